@@ -11,7 +11,7 @@ import (
 func init() {
 	core.Register(&core.Prop{
 		ID: "C10", Level: "exploration",
-		Rule: "each case draws node lists A,B over a 5-id universe and 2 edge types in one of six pair classes (independent, disjoint, nested, identical, cyclic, ill-formed), shared nodes with reflection-populated attributes. " +
+		Rule: "each case draws node lists A,B over a 5-id universe and 2 edge types in one of seven pair classes (independent, disjoint, nested, identical, cyclic, ill-formed, near-equal nodes that differ only in sub-second date parts and list order), shared nodes with reflection-populated attributes. " +
 			"Monitored on X=A.Intersect(B): ids(X)=ids(A)∩ids(B); roots(X) within (roots(A)∪roots(B))∩ids(X) and containing roots(A)∩roots(B)∩ids(X); edge triples of X within (E(A)∪E(B)) restricted to ids(X) and containing (E(A)∩E(B)) restricted; " +
 			"idempotence, commutativity (equal sets), absorption ids(A∩(A∪B))=ids(A), emptiness against the empty list, attribute precedence per schema field (argument wins when non-empty). " +
 			"distinct = hash of canonical (A,B); non-trivial = at least one shared node.",
@@ -28,7 +28,7 @@ func init() {
 
 func c10Pair(c *core.C) (*sbom.NodeList, *sbom.NodeList, string) {
 	r := c.R
-	class := []string{"independent", "disjoint", "nested", "identical", "cyclic", "ill-formed"}[c.K%6]
+	class := []string{"independent", "disjoint", "nested", "identical", "cyclic", "ill-formed", "near-equal-nodes"}[c.K%7]
 	mk := func(ids []string, ill bool, pe float64) *sbom.NodeList {
 		return gen.RandomNodeList(r, gen.GraphOpts{Universe: ids, EdgeTypes: c09Types, PNode: 0.5 + 0.5*r.Float64(), PEdge: pe, PRoot: 0.6 * r.Float64(), IllFormed: ill, NodeMaker: attrNodeMaker})
 	}
@@ -77,6 +77,20 @@ func c10Pair(c *core.C) (*sbom.NodeList, *sbom.NodeList, string) {
 	case "identical":
 		a := mk(c09IDs, false, 0.3)
 		return a, gen.ShuffledPresentation(r, a), class
+	case "near-equal-nodes":
+		// the same graph, every shared node differing only in what equality ignores: sub-second date parts
+		// (and the order of set-valued attributes). The second operand's value must still win.
+		a := mk(c09IDs, false, 0.3)
+		b := gen.ShuffledPresentation(r, a)
+		for i, n := range b.Nodes {
+			b.Nodes[i] = permuteNode(r, n)
+			for _, t := range []**timestampT{&b.Nodes[i].ReleaseDate, &b.Nodes[i].BuildDate, &b.Nodes[i].ValidUntilDate} {
+				if *t != nil {
+					(*t).Nanos = int32(r.Intn(1000000000))
+				}
+			}
+		}
+		return a, b, class
 	case "cyclic":
 		return mk(c09IDs, false, 0.6), mk(c09IDs, false, 0.6), class
 	case "ill-formed":
